@@ -646,6 +646,61 @@ func (m *Model) rulePOSTALWAYS(r *Results) {
 	if n == 0 {
 		r.undecided(rule, "<fan-out> / loop visits every feed", m.pos(a.FanoutFn.Pos()), "no push inside a loop in the fan-out function")
 	}
+	// the feeds an event goes to are the store-wide registry's, whatever the state of the handle the
+	// writer used: on the post path the registry lookup is not controlled by the handle's closed
+	// flag, and a helper that yields the list yields the lookup's result on every return
+	if a.FeedsField != nil {
+		nl := 0
+		ext := m.reachableLocal(a.PostFn)
+		ext[a.FanoutFn] = true
+		for g := range m.reachableLocal(a.FanoutFn) {
+			ext[g] = true
+		}
+		for g := range ext {
+			for _, b := range g.Blocks {
+				for _, ins := range b.Instrs {
+					lk, ok := ins.(*ssa.Lookup)
+					if !ok {
+						continue
+					}
+					_, f, isFL := fieldLoad(lk.X)
+					if !isFL || f != a.FeedsField {
+						continue
+					}
+					nl++
+					bad := ""
+					for _, ct := range controllingConds(g, b) {
+						if _, cf, ok := fieldLoad(stripConv(ct.If.Cond)); ok && a.ClosedField != nil && cf == a.ClosedField {
+							bad = "the lookup is controlled by the handle's closed flag (" + m.instrPos(ct.If) + ")"
+						}
+					}
+					// returned by this function? then on every return
+					returnsIt := false
+					for _, ret := range returnsOf(g) {
+						for _, rv := range ret.Results {
+							if stripConv(rv) == ssa.Value(lk) {
+								returnsIt = true
+							}
+						}
+					}
+					if returnsIt {
+						for _, ret := range returnsOf(g) {
+							for j, rv := range ret.Results {
+								if types.Identical(rv.Type(), lk.Type()) && stripConv(rv) != ssa.Value(lk) {
+									_ = j
+									bad = "a return of the helper that yields the feed list does not yield the registry's entry (" + m.instrPos(ret) + ")"
+								}
+							}
+						}
+					}
+					r.check(bad == "", rule, m.declName(g)+" / recipients are the registry's, whatever the handle's state", m.instrPos(lk), "the registry lookup on the post path does not depend on the handle", bad+": a write that commits just before its own handle is closed is delivered to no feed, although the feeds belong to the store and other handles are still open")
+				}
+			}
+		}
+		if nl == 0 {
+			r.undecided(rule, "<fan-out> / registry lookup", "-", "no lookup of the feed registry on the post path")
+		}
+	}
 }
 
 // ---------------------------------------------------------------- R-FEED-STOPPERS
